@@ -177,6 +177,36 @@ def generate(rng: random.Random, tier: str) -> dict:
             "follow_up": (api == "send_message" and slow_writer is None and rng.random() < 0.3)}
 
 
+def systematic(tier: str):
+    """The matching response swept over the whole life of a request (every 16 ticks, thorough every 4, plus +-1 around every poll edge and
+    the deadline) x a distractor sitting right before it x tie order: 'first matching response before the deadline' on a grid."""
+    out = []
+    step = 16 if tier == "quick" else 4
+    timeout, t0 = 1.5, 0
+    dl = int(timeout / TICK)
+    ts = set(range(0, dl + step, step))
+    for e in list(range(0, dl + 1, int(POLL / TICK))) + [dl]:
+        ts.update({max(0, e - 1), e, e + 1})
+    for t in sorted(ts):
+        for pre in (None, "other_response", "same_id_request", "notification"):
+            for tie in (0, 2):
+                if pre is None and tie == 2:
+                    continue
+                events = []
+                if pre:
+                    ev = {"t": t, "tie": tie, "hops": 0, "kind": pre, "m": "mk0"}
+                    if pre == "other_response":
+                        ev["oid"] = "req-1 "
+                    if pre == "same_id_request":
+                        ev["as_progress"] = False
+                    events.append(ev)
+                events.append({"t": t, "tie": 2 - tie if pre else 0, "hops": 0, "kind": "match_result", "m": "mk1"})
+                events.append({"t": t + 3, "tie": 0, "hops": 0, "kind": "match_error", "m": "mk2", "code": -32000, "with_data": False})
+                out.append({"v": 1, "api": "send_message", "mode": "model_validate", "uuid_seed": 4242, "message_id": "req-1", "method": "tools/list",
+                            "params": None, "timeout": timeout, "t0": t0, "events": events, "with_progress": False, "slow_writer": None, "follow_up": False})
+    return out
+
+
 def simplify(scn):
     if scn.get("follow_up"):
         c = _cp(scn); c["follow_up"] = False; yield c
